@@ -468,7 +468,18 @@ impl VerifierWorld {
                 }
                 Kind::AuthObjVerify => {
                     let mac: [u8; 32] = w[..32].try_into().unwrap();
-                    Some(dryoc::auth::Auth::compute_and_verify(&mac, key, &w[32..].to_vec()).is_ok())
+                    let one = dryoc::auth::Auth::compute_and_verify(&mac, key, &w[32..].to_vec()).is_ok();
+                    // the incremental verifier (new / update in two pieces / verify) must agree
+                    let body = &w[32..];
+                    let mut a = dryoc::auth::Auth::new(key);
+                    a.update(&body[..body.len() / 2].to_vec());
+                    a.update(&body[body.len() / 2..].to_vec());
+                    let inc = a.verify(&mac).is_ok();
+                    let macv: Vec<u8> = mac.to_vec();
+                    let mut b = dryoc::auth::Auth::new(key);
+                    b.update(&body.to_vec());
+                    let incv = b.verify(&macv).is_ok();
+                    Some(one && inc && incv)
                 }
                 Kind::OtaVerify => {
                     let mac: [u8; 16] = w[..16].try_into().unwrap();
@@ -476,7 +487,13 @@ impl VerifierWorld {
                 }
                 Kind::OtaObjVerify => {
                     let mac: [u8; 16] = w[..16].try_into().unwrap();
-                    Some(dryoc::onetimeauth::OnetimeAuth::compute_and_verify(&mac, key, &w[16..].to_vec()).is_ok())
+                    let one = dryoc::onetimeauth::OnetimeAuth::compute_and_verify(&mac, key, &w[16..].to_vec()).is_ok();
+                    let body = &w[16..];
+                    let mut a = dryoc::onetimeauth::OnetimeAuth::new(key);
+                    a.update(&body[..body.len() / 2].to_vec());
+                    a.update(&body[body.len() / 2..].to_vec());
+                    let inc = a.verify(&mac).is_ok();
+                    Some(one && inc)
                 }
                 Kind::PwStrVerify => {
                     let s = String::from_utf8_lossy(w).to_string();
